@@ -24,7 +24,11 @@ RULE = (
     'payload in {b"", 0102}) each id at most once} - the constraints bound '
     'the length by 5 - of length <= 4 (quick) / <= 5 = all (thorough), '
     'terminated by success (+ keep-alive 77, a 300-byte unknown packet, '
-    'keep-alive 78 from the server; a 200-byte chat from the client) or by '
+    'keep-alive 78 from the server; when the threshold T in force at the '
+    'end is in 1..70000 also unknown-id frames of exactly T-1, T and T+1 '
+    'uncompressed bytes (id VarInt + payload; the reference server '
+    'compresses iff length >= T, the vanilla rule), each followed by a '
+    'keep-alive that must be echoed; a 200-byte chat from the client) or by '
     'disconnect(msg) for 11 message forms.  The full product with the '
     'configuration axes is not affordable, so it is factored into families, '
     'each a COMPLETE product of the listed sets (no sampling): '
@@ -45,11 +49,26 @@ RULE = (
     'every script of length <= 3 (thorough 4) x {success, disconnect} x '
     'modes; byte-wise (one byte per quiescence) x every script of length '
     '<= 2 x {success, disconnect} x modes x versions {47, 385, 757}; '
+    'T threshold boundary in login: every script (tier length) whose final '
+    'threshold is 64 or 256, followed by three plugin requests whose frames '
+    'are exactly T-1, T, T+1 bytes x {wait, burst} at the latest version '
+    '(thorough: also 385, 391, 707), and length <= 2 x versions >= 385 x '
+    '{eager, lazy}; '
+    'R retry on the same Connection object: after every disconnect-'
+    'terminated script of length <= 2 with a plugin step (wait and burst; '
+    'in burst a default response is still queued when the login dies) and '
+    'the plain disconnect, and after every success script of length <= 2 '
+    'followed by write_packet(chat); disconnect(immediate=True): connect() '
+    'again against a second server [success, keep-alive 88]; the second '
+    'server must see handshake and login start first and nothing else but '
+    'the keep-alive echo, nothing more may go to the first connection, the '
+    'client must reach the play state; x all boundary versions; '
     'S seed extras: scripts of length <= 2 over a seed-derived extra '
     'threshold and payload.  VERIF_SEED also derives the verify token and '
     'the scripted OS random bytes (= shared secrets) and permutes the order. '
     'Non-trivial = the script has at least one optional step; distinct = '
-    'distinct (script, terminator, version, mode, auth, handler, delivery). '
+    'distinct (script, terminator, version, mode, auth, handler, delivery, '
+    'retry). '
     'States = (reactor class, compression options, transport encrypted?, '
     'plugin ids answered, script position) observed before every packet is '
     'reacted to and at the end; transitions = script steps the client '
@@ -93,6 +112,45 @@ CHAT = 'é' * 100                                     # 200 bytes UTF-8
 PLAY = [('keepalive', 77), ('raw', RAW_ID, RAW_PAYLOAD), ('keepalive', 78)]
 UUID = '12345678-1234-5678-1234-567812345678'
 LATEST = 757
+PROBE_ID = 0x7D             # unknown clientbound play id, one-byte VarInt
+PROBE_MIDS = (2001, 2002, 2003)     # two-byte VarInts
+PROBE_MAX_T = 70000
+RETRY_KA = 88
+
+
+def final_threshold(script):
+    t = None
+    for s in script:
+        if s[0] == 'C':
+            t = s[1]
+    return t
+
+
+def probe_targets(script):
+    """Uncompressed frame lengths (id VarInt + payload) T-1, T, T+1 around
+    the threshold in force at the end of the script."""
+    t = final_threshold(script)
+    if t is None or not 1 <= t <= PROBE_MAX_T:
+        return []
+    return [n for n in (t - 1, t, t + 1) if n >= 1]
+
+
+def play_events(script):
+    ev = list(PLAY)
+    for i, n in enumerate(probe_targets(script)):
+        ev.append(('raw', PROBE_ID,
+                   bytes((7 * k + i) & 0xFF for k in range(n - 1))))
+        ev.append(('keepalive', 101 + i))
+    return ev
+
+
+def login_probes(script):
+    """Plugin requests whose frame (1-byte id, 2-byte message id, channel,
+    data) is exactly T-1, T, T+1 long, to follow the script."""
+    fixed = 1 + 2 + 1 + len(CHANNEL)
+    return tuple(('P', PROBE_MIDS[i], bytes((5 * k + i) & 0xFF
+                                            for k in range(n - fixed)))
+                 for i, n in enumerate(probe_targets(script)) if n >= fixed)
 
 
 # ---------------------------------------------------------------------------
@@ -138,8 +196,9 @@ def versions(mc):
 
 
 def scn(script, term, v=LATEST, mode='wait', auth='stub', listener='none',
-        delivery='eager'):
-    return (tuple(script), tuple(term), v, mode, auth, listener, delivery)
+        delivery='eager', retry=''):
+    return (tuple(script), tuple(term), v, mode, auth, listener, delivery,
+            retry)
 
 
 def modes(script):
@@ -178,6 +237,24 @@ def families(tier, seed, mc):
                  for s in s_2 for t in (ok, dis) for m in modes(s)
                  for v in (47, 385, LATEST)
                  if not (has(s, 'P') and v == 47)]
+    # T: frames of exactly T-1, T, T+1 bytes during login (as trailing
+    # plugin requests; the play-state ones are part of every success run)
+    fam['T'] = [scn(s + login_probes(s), ok, v=v, mode=m)
+                for s in s_all if len(login_probes(s)) == 3
+                for m in ('wait', 'burst') for v in va + [LATEST]]
+    fam['T'] += [scn(s + login_probes(s), ok, v=v, mode=m, auth='none',
+                     delivery=d)
+                 for s in s_2 if len(login_probes(s)) == 3
+                 for m in ('wait', 'burst') for v in vp
+                 for d in ('eager', 'lazy')]
+    # R: a second connect() on the same Connection object
+    s_r = [s for s in s_2 if has(s, 'P')]
+    fam['R'] = [scn(s, dis, v=v, mode=m, retry='after-disconnect')
+                for s in [()] + s_r for m in modes(s)
+                for v in (vp if s else vs)]
+    fam['R'] += [scn(s, ok, v=v, mode=m, retry='after-user-disconnect')
+                 for s in s_2 for m in modes(s)
+                 for v in (vp if has(s, 'P') else vs)]
     r = random.Random(seed)
     xt = r.choice([2, 3, 17, 63, 65, 100, 255, 257, 1000, 65536]) + \
         r.randrange(3) * 7
@@ -310,7 +387,7 @@ def describe_rx(p):
 
 
 def body(W, sc, seed):
-    script, term, v, mode, auth, listener, delivery = sc
+    script, term, v, mode, auth, listener, delivery, retry = sc
     C, mc, S = W.C, W.mc, W.S
     from minecraft.networking.packets import clientbound, serverbound
     token = verify_token(seed)
@@ -325,8 +402,13 @@ def body(W, sc, seed):
     login.append(tuple(term))
 
     def factory(conn):
-        srv = Srv(conn, protoids.ids, W.rank, login=login, mode=mode,
-                  rsa=harness.rsa_key(), play_script=PLAY)
+        if W.servers:       # a later TCP connection: the retry
+            srv = Srv(conn, protoids.ids, W.rank, login=[('success',)],
+                      play_script=[('keepalive', RETRY_KA)])
+        else:
+            srv = Srv(conn, protoids.ids, W.rank, login=login, mode=mode,
+                      rsa=harness.rsa_key(),
+                      play_script=play_events(script))
         W.servers.append(srv)
         return srv
     W.net.listen('srv', 25565, factory)
@@ -401,7 +483,7 @@ def body(W, sc, seed):
                     thr = t
             frames.append((st, pid, len(codec.varnum(pid)) + len(payload),
                            fmt, was, thr))
-        return {
+        o = {
             'errors': list(srv.errors), 'frames': frames,
             'play_rx': list(srv.play_rx),
             'replies': list(srv.plugin_replies),
@@ -413,8 +495,9 @@ def body(W, sc, seed):
             'joins': None if tok is None else
             list(tok.calls) if auth == 'stub' else
             [(u, json.loads(d).get('serverId')) for u, d in shim.posts],
-            'log': log, 'states': states, 'login_name': srv.login_name,
-            'reactor': type(conn.reactor).__name__, 'excs': excs,
+            'log': list(log), 'states': list(states),
+            'login_name': srv.login_name,
+            'reactor': type(conn.reactor).__name__, 'excs': list(excs),
             'exits': len(exits), 'chat_sent': chat_sent,
             'thread': None if ag is None else (ag.state, ag.kind),
             'live': [repr(a) for a in S.live()],
@@ -424,7 +507,47 @@ def body(W, sc, seed):
             'steps_sent': srv.step_i, 'srv_state': srv.state,
             'waiting': srv.waiting,
             'conn_exception': type(conn.exception).__name__,
+            'retry': None,
         }
+        ready = (o['excs'] and not o['live']) \
+            if retry == 'after-disconnect' else chat_sent
+        if retry and ready:
+            r = {}
+            if retry == 'after-user-disconnect':
+                n0 = len(vc.c2s)
+                conn.write_packet(serverbound.play.ChatPacket(
+                    message='stale'))
+                conn.disconnect(immediate=True)
+                W.settle(limit)
+                r['sent_after_disconnect'] = len(vc.c2s) - n0
+            n_exc, n_log, n1 = len(excs), len(log), len(vc.c2s)
+            try:
+                conn.connect()
+                r['connect_raised'] = None
+            except Exception as e:
+                r['connect_raised'] = repr(e)
+            W.settle(limit)
+            s2 = W.servers[1] if len(W.servers) > 1 else None
+            nt = conn.networking_thread
+            ag = getattr(nt, '_vf_agent', None) if nt is not None else None
+            r.update({
+                'connections': len(W.servers),
+                'errors': None if s2 is None else list(s2.errors),
+                'handshake': None if s2 is None else s2.handshake,
+                'login_name': None if s2 is None else s2.login_name,
+                'frames': None if s2 is None else
+                [(f[0], f[1]) for f in s2.frames],
+                'play_rx': None if s2 is None else list(s2.play_rx),
+                'srv_state': None if s2 is None else s2.state,
+                'log': log[n_log:], 'excs': excs[n_exc:],
+                'reactor': type(conn.reactor).__name__,
+                'thread': None if ag is None else (ag.state, ag.kind),
+                'options': (bool(conn.options.compression_enabled),
+                            conn.options.compression_threshold),
+                'old_conn_more': len(vc.c2s) - n1,
+            })
+            o['retry'] = r
+        return o
     finally:
         if restore is not None:
             restore[0].requests = restore[1]
@@ -463,7 +586,7 @@ def disconnect_text(msg):
 
 def judge(sc, seed, x):
     """-> list of (check id, explanation)."""
-    script, term, v, mode, auth, listener, delivery = sc
+    script, term, v, mode, auth, listener, delivery, retry = sc
     out = []
     b = lambda cid, what: out.append((cid, what))     # noqa: E731
     if x.failure is not None:
@@ -510,9 +633,15 @@ def judge(sc, seed, x):
             want.append(('comp', s[1]))
         else:
             want.append(('plugin', s[1], CHANNEL, s[2]))
+    want_ka = []
     if success:
-        want += [('success', UUID, name), ('keepalive', 77),
-                 ('packet', 'Packet', RAW_ID), ('keepalive', 78)]
+        want.append(('success', UUID, name))
+        for ev in play_events(script):
+            if ev[0] == 'keepalive':
+                want.append(('keepalive', ev[1]))
+                want_ka.append(ev[1])
+            else:
+                want.append(('packet', 'Packet', ev[1]))
     elif disconnect:
         want.append(('disconnect', term[1]))
     if o['log'] != want:
@@ -587,9 +716,10 @@ def judge(sc, seed, x):
             b('not-in-play-state', 'after login success the reactor is %s'
               % o['reactor'])
         ka = [p[1] for p in o['play_rx'] if p[0] == 'keepalive']
-        if ka != [77, 78]:
-            b('keepalive-echo', 'keep-alives 77 and 78 sent in the play '
-              'state, echoed: %r' % (ka,))
+        if ka != want_ka:
+            b('keepalive-echo', 'keep-alives %r sent in the play state '
+              '(each after a frame the client had to get through), echoed: '
+              '%r' % (want_ka, ka))
         rest = [p for p in o['play_rx'] if p[0] != 'keepalive']
         if o['chat_sent'] and rest != [('chat', CHAT)] or \
                 not o['chat_sent'] and rest:
@@ -649,7 +779,59 @@ def judge(sc, seed, x):
               'without answering; expected the login to wait quietly, got '
               'reactor %s thread %r exceptions %r %r'
               % (o['reactor'], o['thread'], o['excs'], o['agent_excs']))
+    if retry:
+        judge_retry(sc, o, b)
     return out
+
+
+def judge_retry(sc, o, b):
+    """A second connect() on the same Connection object must start a clean
+    conversation: handshake first, nothing left over from the first one."""
+    script, term, v, mode, auth, listener, delivery, retry = sc
+    r = o['retry']
+    if r is None:
+        return          # the first conversation did not get there: reported
+    name = 'vfuser' if auth == 'none' else 'prof'
+    if r.get('sent_after_disconnect'):
+        b('retry-immediate-disconnect-wrote', 'disconnect(immediate=True) '
+          'with a packet queued: %d more bytes were sent on the old '
+          'connection' % r['sent_after_disconnect'])
+    if r['old_conn_more']:
+        b('retry-wrote-to-old-connection', 'second connect(): %d more bytes '
+          'were sent on the first connection' % r['old_conn_more'])
+    if r['connect_raised'] or r['connections'] != 2:
+        b('retry-no-connection', 'second connect() on the same Connection: '
+          'raised %r, %d TCP connections in total'
+          % (r['connect_raised'], r['connections']))
+        return
+    if r['errors']:
+        b('retry-server-cannot-decode', 'second connect() on the same '
+          'Connection: the new server could not accept what the client '
+          'sent: %s; frames %r' % ('; '.join(r['errors'][:3]),
+                                   r['frames'][:4]))
+        return
+    hs = r['handshake']
+    if not r['frames'] or r['frames'][0][0] != 'handshake' or hs is None \
+            or hs['protocol'] != v or hs['next'] != 2 or \
+            r['login_name'] != name:
+        b('retry-handshake', 'second connect(): expected a handshake for '
+          'protocol %d/login and login start %r first; the server got '
+          'handshake %r, name %r, frames %r'
+          % (v, name, hs, r['login_name'], r['frames'][:4]))
+    if len(r['frames']) != 3 or r['play_rx'] != [('keepalive', RETRY_KA)]:
+        b('retry-leftovers', 'second connect(): expected exactly handshake, '
+          'login start and the echo of keep-alive %d on the new connection; '
+          'the server got frames %r, play packets %s'
+          % (RETRY_KA, r['frames'][:6], _short(r['play_rx'])))
+    if r['log'] != [('success', UUID, name), ('keepalive', RETRY_KA)]:
+        b('retry-packets-misread', 'second connect(): the server sent login '
+          'success and keep-alive %d; the client saw %s'
+          % (RETRY_KA, _short(r['log'])))
+    if r['reactor'] != 'PlayingReactor' or \
+            r['thread'] != ('parked', 'idle-select') or r['excs']:
+        b('retry-end-state', 'second connect(): expected the play state, an '
+          'idle networking thread and no error; got reactor %s, thread %r, '
+          'exceptions %r' % (r['reactor'], r['thread'], r['excs']))
 
 
 def tok_expected(auth):
@@ -678,7 +860,7 @@ def _short(x):
 # ---------------------------------------------------------------------------
 
 def check_one(ctx, sc):
-    script, term, v, mode, auth, listener, delivery = sc
+    script, term, v, mode, auth, listener, delivery, retry = sc
     x = run_one(sc, ctx.seed)
     ctx.count()
     ctx.traces += 1
@@ -709,6 +891,15 @@ def check_one(ctx, sc):
                                          else 'unsuccessful'))
         if o['chat_sent']:
             ctx.cls('play state proven by traffic')
+            for n in probe_targets(script):
+                t = final_threshold(script)
+                ctx.cls('server play frame of threshold%+d bytes' % (n - t))
+        if o['retry'] is not None:
+            ctx.cls('second connect() on the same object, %s' % retry)
+            ctx.outcome('retry -> %s' % o['retry']['reactor'])
+        if script and script[-1][0] == 'P' and \
+                script[-1][1] in PROBE_MIDS:
+            ctx.cls('login plugin requests of threshold-1/0/+1 bytes')
     else:
         ctx.outcome('%s -> %s' % (term[0], x.failure[0]))
     ctx.cls('delivery %s' % delivery)
@@ -718,16 +909,18 @@ def check_one(ctx, sc):
     ctx.cls('version %d' % v)
     ctx.cls('script length %d' % len(script))
     for cid, what in found:
-        key = '%s script=%s term=%s%s%s%s' % (
+        key = '%s script=%s term=%s%s%s%s%s' % (
             cid, kinds(script), term[0],
             '' if listener == 'none' else ' handler=' + listener,
             '' if delivery == 'eager' else ' ' + delivery,
-            ' burst' if mode == 'burst' else '')
+            ' burst' if mode == 'burst' else '',
+            ' retry=' + retry if retry else '')
         ctx.violation(
             key,
             'server script %s then %s, protocol %d, %s mode, auth %s, user '
-            'handler %s, %s delivery: %s'
-            % (show(script), term, v, mode, auth, listener, delivery, what),
+            'handler %s, %s delivery%s: %s'
+            % (show(script), term, v, mode, auth, listener, delivery,
+               ', then connect() again %s' % retry if retry else '', what),
             case_of(sc))
     return found
 
@@ -736,20 +929,22 @@ def show(script):
     return '[' + ', '.join(
         'encrypt(%r)' % s[1] if s[0] == 'E' else
         'compress(%d)' % s[1] if s[0] == 'C' else
-        'plugin(%d, %s)' % (s[1], s[2].hex() or '-') for s in script) + ']'
+        'plugin(%d, %s)' % (s[1], (s[2].hex() or '-') if len(s[2]) <= 8
+                            else '%d bytes' % len(s[2]))
+        for s in script) + ']'
 
 
 def case_of(sc):
-    script, term, v, mode, auth, listener, delivery = sc
+    script, term, v, mode, auth, listener, delivery, retry = sc
     return {'script': [list(s) for s in script], 'term': list(term),
             'v': v, 'mode': mode, 'auth': auth, 'listener': listener,
-            'delivery': delivery}
+            'delivery': delivery, 'retry': retry}
 
 
 def sc_of(case):
     return scn([tuple(s) for s in case['script']], tuple(case['term']),
                case['v'], case['mode'], case['auth'], case['listener'],
-               case['delivery'])
+               case['delivery'], case.get('retry', ''))
 
 
 def w_chunk(ctx, chunk):
